@@ -9,10 +9,11 @@ Section ApplyProofs.
   Variable digest_eqb : digest -> digest -> bool.
   Hypothesis digest_eqb_spec : forall a b, digest_eqb a b = true <-> a = b.
   Variable root_of : kvmap -> digest.
+  Variable strict : bool.
 
   Notation root := (root digest).
   Notation db := (db digest).
-  Notation apply := (apply digest digest_eqb root_of).
+  Notation apply := (apply digest digest_eqb root_of strict).
   Notation has_root := (has_root digest digest_eqb root_of).
   Notation open_root := (open_root digest digest_eqb root_of).
   Notation root_eqb := (root_eqb digest digest_eqb).
@@ -43,71 +44,80 @@ Section ApplyProofs.
   Definition db_wf (d : db) : Prop := forall r m, In (r, m) d -> root_of m = r_hash r.
 
   (* --- the result of one Apply, by cases --- *)
-  Lemma apply_cases d src dst wl :
-    let res := apply d src dst wl in
+  Lemma apply_cases fin d src dst wl :
+    let res := apply fin d src dst wl in
     (follows dst src = false /\ res = (d, AFollow)) \/
     (follows dst src = true /\ has_root d dst = true /\ res = (d, AOk)) \/
-    (follows dst src = true /\ has_root d dst = false /\ open_root d src = None /\ res = (d, AOther)) \/
+    (follows dst src = true /\ has_root d dst = false /\ open_root d src = None /\
+       (res = (d, AOther) \/ res = (d, AMismatch))) \/
     (exists old, follows dst src = true /\ has_root d dst = false /\ open_root d src = Some old /\
-       ((root_of (apply_writelog old wl) = r_hash dst /\
+       ((root_of (apply_writelog old wl) = r_hash dst /\ is_finalized fin (r_version dst) = false /\
          res = (d ++ [(dst, apply_writelog old wl)], AOk)) \/
+        (root_of (apply_writelog old wl) = r_hash dst /\ is_finalized fin (r_version dst) = true /\
+         res = (d, AOther)) \/
         (root_of (apply_writelog old wl) <> r_hash dst /\ res = (d, AMismatch)))).
   Proof.
     cbv zeta. unfold Model.apply.
     destruct (follows dst src) eqn:Ef; cbn [negb]; [|left; split; reflexivity].
     right. destruct (has_root d dst) eqn:Eh; [left; repeat split; reflexivity|].
-    right. destruct (open_root d src) as [old|] eqn:Eo; [|left; repeat split; reflexivity].
-    right. exists old. repeat (split; [reflexivity|]).
-    destruct (digest_eqb (root_of (apply_writelog old wl)) (r_hash dst)) eqn:Ed.
-    - left. apply digest_eqb_spec in Ed. split; [exact Ed|reflexivity].
-    - right. split; [|reflexivity]. intros H. apply digest_eqb_spec in H. congruence.
+    right. destruct (open_root d src) as [old|] eqn:Eo.
+    - right. exists old. repeat (split; [reflexivity|]).
+      destruct (digest_eqb (root_of (apply_writelog old wl)) (r_hash dst)) eqn:Ed.
+      + apply digest_eqb_spec in Ed. destruct (is_finalized fin (r_version dst)) eqn:Efin.
+        * right. left. repeat split; assumption.
+        * left. repeat split; assumption.
+      + right. right. split; [|reflexivity]. intros H. apply digest_eqb_spec in H. congruence.
+    - left. repeat (split; [reflexivity|]).
+      destruct wl; [destruct strict; [|destruct (digest_eqb (r_hash src) (r_hash dst))]|]; auto.
   Qed.
 
   (* accepted iff the recomputed root is the expected one (when the expected
-     root is not already stored and the start root opens) *)
-  Lemma apply_known_root_lem d src dst wl old :
+     root is not already stored, the start root opens and the version is
+     still open) *)
+  Lemma apply_known_root_lem fin d src dst wl old :
     follows dst src = true -> has_root d dst = false -> open_root d src = Some old ->
-    (snd (apply d src dst wl) = AOk <-> root_of (apply_writelog old wl) = r_hash dst).
+    is_finalized fin (r_version dst) = false ->
+    (snd (apply fin d src dst wl) = AOk <-> root_of (apply_writelog old wl) = r_hash dst).
   Proof.
-    intros Hf Hh Ho. pose proof (apply_cases d src dst wl) as H. cbv zeta in H.
+    intros Hf Hh Ho Hfin. pose proof (apply_cases fin d src dst wl) as H. cbv zeta in H.
     destruct H as [[H _]|[[_ [H _]]|[[_ [_ [H _]]]|[old' [_ [_ [Ho' H]]]]]]]; try congruence.
     assert (old' = old) by congruence. subst old'.
-    destruct H as [[H1 H2]|[H1 H2]]; rewrite H2; cbn [snd]; split; congruence.
+    destruct H as [[H1 [_ H2]]|[[H1 [H3 H2]]|[H1 H2]]]; rewrite H2; cbn [snd]; split; congruence.
   Qed.
 
   (* a failed Apply leaves the database as it was *)
-  Lemma apply_error_unchanged_lem d src dst wl :
-    snd (apply d src dst wl) <> AOk -> fst (apply d src dst wl) = d.
+  Lemma apply_error_unchanged_lem fin d src dst wl :
+    snd (apply fin d src dst wl) <> AOk -> fst (apply fin d src dst wl) = d.
   Proof.
-    intros Hne. pose proof (apply_cases d src dst wl) as H. cbv zeta in H.
-    destruct H as [[_ H]|[[_ [_ H]]|[[_ [_ [_ H]]]|[old [_ [_ [_ [[_ H]|[_ H]]]]]]]]];
+    intros Hne. pose proof (apply_cases fin d src dst wl) as H. cbv zeta in H.
+    destruct H as [[_ H]|[[_ [_ H]]|[[_ [_ [_ [H|H]]]]|[old [_ [_ [_ [[_ [_ H]]|[[_ [_ H]]|[_ H]]]]]]]]]];
       rewrite H in *; cbn [fst snd] in *; congruence.
   Qed.
 
   (* after a hash mismatch (or any other failure past the Follows check) the
      expected root is not in the database *)
-  Lemma apply_rejected_no_root_lem d src dst wl :
-    snd (apply d src dst wl) = AMismatch \/ snd (apply d src dst wl) = AOther ->
-    fst (apply d src dst wl) = d /\ has_root (fst (apply d src dst wl)) dst = false.
+  Lemma apply_rejected_no_root_lem fin d src dst wl :
+    snd (apply fin d src dst wl) = AMismatch \/ snd (apply fin d src dst wl) = AOther ->
+    fst (apply fin d src dst wl) = d /\ has_root (fst (apply fin d src dst wl)) dst = false.
   Proof.
-    intros Hc. pose proof (apply_cases d src dst wl) as H. cbv zeta in H.
-    destruct H as [[_ H]|[[_ [_ H]]|[[_ [Hh [_ H]]]|[old [_ [Hh [_ [[_ H]|[_ H]]]]]]]]];
+    intros Hc. pose proof (apply_cases fin d src dst wl) as H. cbv zeta in H.
+    destruct H as [[_ H]|[[_ [_ H]]|[[_ [Hh [_ [H|H]]]]|[old [_ [Hh [_ [[_ [_ H]]|[[_ [_ H]]|[_ H]]]]]]]]]];
       rewrite H in *; cbn [fst snd] in *; try (destruct Hc; discriminate);
       (split; [reflexivity|exact Hh]).
   Qed.
 
   (* an accepted Apply leaves the expected root stored, adds nothing else, and
      the contents stored under the new root hash to it *)
-  Lemma apply_ok_persisted_lem d src dst wl :
-    snd (apply d src dst wl) = AOk ->
-    has_root (fst (apply d src dst wl)) dst = true /\
-    (fst (apply d src dst wl) = d \/
+  Lemma apply_ok_persisted_lem fin d src dst wl :
+    snd (apply fin d src dst wl) = AOk ->
+    has_root (fst (apply fin d src dst wl)) dst = true /\
+    (fst (apply fin d src dst wl) = d \/
      exists old, open_root d src = Some old /\
-       fst (apply d src dst wl) = d ++ [(dst, apply_writelog old wl)] /\
+       fst (apply fin d src dst wl) = d ++ [(dst, apply_writelog old wl)] /\
        root_of (apply_writelog old wl) = r_hash dst).
   Proof.
-    intros Hc. pose proof (apply_cases d src dst wl) as H. cbv zeta in H.
-    destruct H as [[_ H]|[[_ [Hh H]]|[[_ [_ [_ H]]]|[old [_ [_ [Ho [[Hr H]|[_ H]]]]]]]]];
+    intros Hc. pose proof (apply_cases fin d src dst wl) as H. cbv zeta in H.
+    destruct H as [[_ H]|[[_ [Hh H]]|[[_ [_ [_ [H|H]]]]|[old [_ [_ [Ho [[Hr [_ H]]|[[_ [_ H]]|[_ H]]]]]]]]]];
       rewrite H in *; cbn [fst snd] in *; try discriminate.
     - split; [exact Hh|left; reflexivity].
     - split.
@@ -115,19 +125,20 @@ Section ApplyProofs.
       + right. exists old. repeat split; assumption.
   Qed.
 
-  Lemma apply_preserves_wf d src dst wl : db_wf d -> db_wf (fst (apply d src dst wl)).
+  Lemma apply_preserves_wf fin d src dst wl : db_wf d -> db_wf (fst (apply fin d src dst wl)).
   Proof.
-    intros Hwf. pose proof (apply_cases d src dst wl) as H. cbv zeta in H.
-    destruct H as [[_ H]|[[_ [_ H]]|[[_ [_ [_ H]]]|[old [_ [_ [_ [[Hr H]|[_ H]]]]]]]]];
+    intros Hwf. pose proof (apply_cases fin d src dst wl) as H. cbv zeta in H.
+    destruct H as [[_ H]|[[_ [_ H]]|[[_ [_ [_ [H|H]]]]|[old [_ [_ [_ [[Hr [_ H]]|[[_ [_ H]]|[_ H]]]]]]]]]];
       rewrite H; cbn [fst]; try exact Hwf.
     intros r m Hin. apply in_app_or in Hin as [Hin|[Hin|[]]]; [apply Hwf; exact Hin|].
     injection Hin as <- <-. exact Hr.
   Qed.
 
-  (* any history of Apply requests on an initially empty database *)
-  Definition request := (root * root * writelog)%type.
+  (* any history of Apply requests (each with the finalization state of its
+     moment) on an initially empty database *)
+  Definition request := (option N * root * root * writelog)%type.
   Definition apply_all (d : db) (reqs : list request) : db :=
-    fold_left (fun d q => fst (apply d (fst (fst q)) (snd (fst q)) (snd q))) reqs d.
+    fold_left (fun d q => fst (apply (fst (fst (fst q))) d (snd (fst (fst q))) (snd (fst q)) (snd q))) reqs d.
 
   Lemma apply_all_wf reqs : forall d, db_wf d -> db_wf (apply_all d reqs).
   Proof.
@@ -141,40 +152,62 @@ Section ApplyProofs.
 
   (* a log whose application gives other contents than the announced ones is
      rejected, unless root_of collides *)
-  Lemma corrupted_log_rejected_lem d src dst wl' old new :
+  Lemma corrupted_log_rejected_lem fin d src dst wl' old new :
     follows dst src = true -> has_root d dst = false -> open_root d src = Some old ->
     r_hash dst = root_of new ->
     apply_writelog old wl' <> new ->
-    (snd (apply d src dst wl') = AMismatch /\ fst (apply d src dst wl') = d /\
-     has_root (fst (apply d src dst wl')) dst = false)
+    (snd (apply fin d src dst wl') = AMismatch /\ fst (apply fin d src dst wl') = d /\
+     has_root (fst (apply fin d src dst wl')) dst = false)
     \/ collision.
   Proof.
-    intros Hf Hh Ho Hd Hne. pose proof (apply_cases d src dst wl') as H. cbv zeta in H.
+    intros Hf Hh Ho Hd Hne. pose proof (apply_cases fin d src dst wl') as H. cbv zeta in H.
     destruct H as [[H _]|[[_ [H _]]|[[_ [_ [H _]]]|[old' [_ [_ [Ho' H]]]]]]]; try congruence.
     assert (old' = old) by congruence. subst old'.
-    destruct H as [[H1 H2]|[H1 H2]].
+    destruct H as [[H1 _]|[[H1 _]|[H1 H2]]].
+    - right. exists (apply_writelog old wl'), new. split; [exact Hne|congruence].
     - right. exists (apply_writelog old wl'), new. split; [exact Hne|congruence].
     - left. rewrite H2. cbn [fst snd]. repeat split; [exact Hh].
   Qed.
 
+  (* an unknown start root: every Apply fails and nothing is stored *)
+  Lemma unknown_start_rejected_lem fin d src dst wl :
+    follows dst src = true -> has_root d dst = false -> open_root d src = None ->
+    snd (apply fin d src dst wl) <> AOk /\ fst (apply fin d src dst wl) = d.
+  Proof.
+    intros Hf Hh Ho. pose proof (apply_cases fin d src dst wl) as H. cbv zeta in H.
+    destruct H as [[H _]|[[_ [H _]]|[[_ [_ [_ [H|H]]]]|[old' [_ [_ [Ho' _]]]]]]]; try congruence;
+      rewrite H; cbn [fst snd]; split; congruence.
+  Qed.
+
+  (* a version that is already finalized: nothing is stored into it, whatever the log *)
+  Lemma finalized_version_rejected_lem fin d src dst wl :
+    has_root d dst = false -> is_finalized fin (r_version dst) = true ->
+    snd (apply fin d src dst wl) <> AOk /\ fst (apply fin d src dst wl) = d.
+  Proof.
+    intros Hh Hfin. pose proof (apply_cases fin d src dst wl) as H. cbv zeta in H.
+    destruct H as [[_ H]|[[_ [H _]]|[[_ [_ [_ [H|H]]]]|[old [_ [_ [_ [[_ [H1 H]]|[[_ [_ H]]|[_ H]]]]]]]]]];
+      try congruence; rewrite H; cbn [fst snd]; split; congruence.
+  Qed.
+
   (* the write log of any batch, in any order, is accepted for the root of the
      batch's result *)
-  Lemma sync_reaches_end_root_lem d src dst old ops wl :
+  Lemma sync_reaches_end_root_lem fin d src dst old ops wl :
     sorted old ->
     follows dst src = true -> open_root d src = Some old ->
+    is_finalized fin (r_version dst) = false ->
     r_hash dst = root_of (contents (run_batch old ops)) ->
     Permutation (commit_writelog (run_batch old ops)) wl ->
-    snd (apply d src dst wl) = AOk /\ has_root (fst (apply d src dst wl)) dst = true /\
+    snd (apply fin d src dst wl) = AOk /\ has_root (fst (apply fin d src dst wl)) dst = true /\
     (has_root d dst = false ->
-     fst (apply d src dst wl) = d ++ [(dst, contents (run_batch old ops))]).
+     fst (apply fin d src dst wl) = d ++ [(dst, contents (run_batch old ops))]).
   Proof.
-    intros Hs Hf Ho Hd Hp.
+    intros Hs Hf Ho Hfin Hd Hp.
     pose proof (served_log_any_order_lem old ops wl Hs Hp) as Hcontents.
-    pose proof (apply_cases d src dst wl) as H. cbv zeta in H.
+    pose proof (apply_cases fin d src dst wl) as H. cbv zeta in H.
     destruct H as [[H _]|[[_ [Hh H]]|[[_ [_ [H _]]]|[old' [_ [Hh [Ho' H]]]]]]]; try congruence.
     - rewrite H. cbn [fst snd]. repeat split; [exact Hh|]. congruence.
     - assert (old' = old) by congruence. subst old'. rewrite Hcontents in H.
-      destruct H as [[H1 H2]|[H1 H2]]; [|congruence].
+      destruct H as [[H1 [_ H2]]|[[_ [H3 _]]|[H1 H2]]]; [|congruence|congruence].
       rewrite H2. cbn [fst snd]. repeat split.
       rewrite has_root_app. apply orb_true_iff. right. apply root_eqb_eq. reflexivity.
   Qed.
@@ -190,12 +223,16 @@ Example ex_apply :
   let new := contents (run_batch ex_old ex_ops) in
   let wl := commit_writelog (run_batch ex_old ex_ops) in
   let d := [(ex_root 5 ex_old, ex_old)] in
-  run_attempts d
+  run_attempts false (Some 5) d
     [ mkAttempt (ex_root 5 ex_old) (ex_root 6 new) (removelast wl);
       mkAttempt (ex_root 5 ex_old) (ex_root 8 new) wl;
       mkAttempt (ex_root 5 ex_old) (ex_root 6 new) (rev wl);
-      mkAttempt (ex_root 5 ex_old) (ex_root 6 new) [] ]
-  = [(AMismatch, false); (AFollow, false); (AOk, true); (AOk, true)].
+      mkAttempt (ex_root 5 ex_old) (ex_root 6 new) [];
+      mkAttempt (ex_root 4 [([9], [9])]) (ex_root 5 [([8], [])]) [([8], Some [])];
+      mkAttempt (ex_root 4 [([9], [9])]) (ex_root 5 [([8], [])]) [];
+      mkAttempt (ex_root 5 ex_old) (ex_root 5 [([8], [])]) [([1], None); ([1; 2], None); ([3], None); ([8], Some [])] ]
+  = [(AMismatch, false); (AFollow, false); (AOk, true); (AOk, true);
+     (AOther, false); (AMismatch, false); (AOther, false)].
 Proof. vm_compute. reflexivity. Qed.
 
 Example ex_hyps :
